@@ -19,6 +19,8 @@ import WntrModel.Model.Rpn
 import WntrModel.Model.AmlModel
 import WntrModel.Lemmas.AmlRpn
 import WntrModel.Lemmas.AmlFold
+import WntrModel.Lemmas.AmlDeriv
+import WntrModel.Lemmas.AmlRat
 
 namespace Wntr.Aml
 
@@ -141,5 +143,66 @@ example : sAdd (.ex (.const 2)) (.ex (.const 3)) = .num 5 := by decide +kernel
 example : sDiv (.ex (.var 0)) (.num 0) = none := rfl
 
 end Fold
+
+
+/-! ## 3. `reverse_sd` -/
+
+section Deriv
+variable {α : Type} [Field α] {O : Ops α}
+
+/-- **reverseSd_is_derivative.** For every well-formed operator list — an operator that is used several times occurs
+several times; the repaired `reverse_sd` visits each operator once, in first-occurrence order — and every variable `v`
+the returned dictionary has an entry for: the value of `reverse_sd()[v]` is the value of the formal derivative `D v` of
+the tree the list denotes (the tree whose value `get_rpn`/`evaluate` compute, `getRpn_correct`).
+Hypotheses: the list is well formed and the same object has the same fields wherever it occurs (`consistent`: true of
+Python objects), and the domain side conditions `sdDomAll` of the overloads used while differentiating (no power whose
+base folded to the native number 0; native `if_else` conditions are 0/1). -/
+theorem reverseSd_is_derivative (L : LawfulOps O) (env : Env α) (ops : OpList) (hwf : wellFormed ops = true)
+    (hcons : consistent ops) (e : Expr) (hden : denote ops = some e) (hdom : sdDomAll ops = true)
+    (d : DerMap) (h : reverseSd ops = some d) (v : Nat) (s : SVal) (hj : jacOf d v = some s) :
+    evalS O env s = eval O env (D v e) :=
+  reverseSd_correct L env ops hwf hcons e hden hdom d h v s hj
+
+/-- for a list without repeated operators the code before the repair computed the same thing -/
+theorem reverseSdAsCoded_nodup (L : LawfulOps O) (env : Env α) (ops : OpList) (hwf : wellFormed ops = true)
+    (hnd : (ops.map (·.id)).Nodup) (e : Expr) (hden : denote ops = some e) (hdom : sdDomAll ops = true)
+    (d : DerMap) (h : reverseSdAsCoded ops = some d) (v : Nat) (s : SVal) (hj : jacOf d v = some s) :
+    evalS O env s = eval O env (D v e) := by
+  simp only [denote, runAlg, Option.bind_eq_some_iff] at hden
+  obtain ⟨tm, htm, last, hlast, hle⟩ := hden
+  have hall : ∀ n ∈ ops, sdDom (tauOf tm n.id) = true := by
+    intro n hn
+    obtain ⟨x, _, hl⟩ := foldAlg_fix algTree ops hnd [] tm (by simp) htm n hn
+    simp only [sdDomAll, htm, List.all_eq_true] at hdom
+    simp only [tauOf, hl, Option.getD_some]
+    exact hdom _ (mem_of_lookup tm n.id x hl)
+  have := reverseSdOn_correct (env := env) (v := v) L ops ops hwf hnd tm htm hall last hlast
+    (List.mem_map_of_mem (List.mem_of_getLast? hlast)) d h s hj
+  rw [this]; simp [tauOf, hle]
+
+end Deriv
+
+/-- `(e + 1) * e` with `e = x + y`, as Python builds it: `[e, e+1, e, *]` -/
+def exRepeat2 : OpList :=
+  [⟨0, .bin .add (.leaf (.var 0)) (.leaf (.var 1))⟩,
+   ⟨1, .bin .add (.op 0) (.leaf (.flt 7 (.fin 1)))⟩,
+   ⟨0, .bin .add (.leaf (.var 0)) (.leaf (.var 1))⟩,
+   ⟨2, .bin .mul (.op 1) (.op 0)⟩]
+
+def exEnv : Env Rat := ⟨fun i => if i = 0 then 2 else 3, fun _ => 1⟩
+
+/-- non-vacuity of `reverseSd_is_derivative` (all hypotheses hold for a list WITH a repeated operator, over the lawful
+instance `ratOps`), and the numbers: at x = 2, y = 3 the derivative of (e+1)·e w.r.t. x is 2e+1 = 11 -/
+example : LawfulOps ratOps := ratOps_lawful
+example : wellFormed exRepeat2 = true := by decide
+example : consistent exRepeat2 := by unfold consistent exRepeat2; decide
+example : sdDomAll exRepeat2 = true := by decide +kernel
+example : ((reverseSd exRepeat2).bind (jacOf · 0)).map (evalS ratOps exEnv) = some 11 := by decide +kernel
+example : (denote exRepeat2).map (fun e => eval ratOps exEnv (D 0 e)) = some 11 := by decide +kernel
+
+/-- `reverse_sd` AS CODED BEFORE the repair visited the repeated operator twice: 17 instead of 11
+(the defect fixed by /repo commit 134ac540 stays visible in the model) -/
+theorem reverseSd_asCoded_counterexample :
+    ((reverseSdAsCoded exRepeat2).bind (jacOf · 0)).map (evalS ratOps exEnv) = some 17 := by decide +kernel
 
 end Wntr.Aml
